@@ -307,6 +307,10 @@ def generate(rng, tier):
     for l in ["5kg # c", "3m + %10", "5kg + 0x10", "5kg 10:30", "ağırlık = 5kg # ş", "5kg", "5kg + 3", "12abc 50% # x", "7xyz $5",
               "2kg 3kg # iki", "9qq 0b11 + 12:30 est", "4zz + 10 usd # n"]:
         cases.append(mk(l, "en", "glued-suffix"))
+    # ... and with a word IN FRONT of the glued literal (the text parser pushes a token near the start of the line before
+    # it offers the suffix)
+    for l in ["x = 1e5", "total 10abc", "çay 500gb", "y = 3x + 1", "toplam = 12abc # ö", "ab 1e5 cd 2e6", "1e5", "10abc", "500gb to mb"]:
+        cases.append(mk(l, "en", "glued-suffix"))
     for _ in range(10 if tier == "quick" else 120):
         head = "%d%s" % (rng.randint(1, 999), rng.choice(["kg", "m", "abc", "zz", "çay", "x"]))
         tail = rng.choice(["# c", "%10", "0x10", "10:30", "$5", "50%", "12:30 est", "0b101", "10 usd", "# ö 5"])
